@@ -122,7 +122,7 @@ PROPS.update({
         bounds="generated family G (tools/gen_derive.py: ~40 definitions quick, ~53 thorough; shapes unit/tuple/named x 0..4 fields x {none, skip, compact, encoded_as} x field types x enums with index attribute / discriminant / position / skip incl. all-variants-skipped, repr(transparent), single-field forwarders) plus hand-written generic / CompactAs / nested members; every definition decided over ALL its values (encode, round trip) and ALL byte strings up to max length + 1 (decode; the index byte ranges over all 256 values)",
         outside="definitions outside G (nesting depth > 2, lifetimes, custom bounds attributes, > 5 variants); the programs axis is enumeration by construction (a macro runs on program text)",
         explanation="each definition and its reference encoder/decoder are emitted from ONE abstract description, so the oracle does not go through the macro: real derived encode == layout, decode inverts it and fills skipped fields with Default, unknown index byte rejected, skipped variants encode to nothing and terminate (unwinding assertions)."),
-    "C08": dict(runs=std_runs(8) + [dict(features=["c08"], cfg="std", jobs=8, filters={"quick": ["c08q_ioreader"], "thorough": ["c08q_ioreader", "c08t_ioreader", "c08q_in_tup3", "c08q_in_vec_opt_2", "c08q_bytes"]})],
+    "C08": dict(runs=std_runs(8, heavy=True) + [dict(features=["c08"], cfg="std", jobs=8, filters={"quick": ["c08q_ioreader"], "thorough": ["c08q_ioreader", "c08t_ioreader", "c08q_in_tup3", "c08q_in_vec_opt_2", "c08q_bytes"]})],
         bounds="ALL byte strings of symbolic length <= size+1 for every fixed-shape type; containers with <= 3 elements; input stacks: &[u8], unknown-length, CountedInput / depth-limit(u32::MAX) / mem-limit(usize::MAX) in every order the API allows up to depth 3, decode_from_bytes incl. zero-copy Bytes, IoReader over a reader delivering symbolic-size short chunks (std configuration)",
         outside="I/O errors other than EOF from a reader",
         explanation="the same symbolic bytes decoded through every input stack: identical Ok/Err, equal values, equal bytes consumed."),
@@ -169,7 +169,11 @@ PROPS["C20"] = dict(
         dict(features=["c01", "c03", "c04"], cfg="std", filters={"quick": _C20_CORE + _C20_MORE, "thorough": names(["c01q_", "c03q_", "c04q_"], exclude=["vec_opt_max", "vec_bool_2p14", "derived_"])}),
         dict(features=["c01", "c03", "c04"], cfg="chain", filters={"quick": _C20_CORE, "thorough": names(["c01q_", "c03q_", "c04q_"], exclude=["vec_opt_max", "vec_bool_2p14", "derived_"])}),
         dict(features=["c01", "c03", "c04"], cfg="nostd", noext=True, filters={"quick": _C20_CORE, "thorough": ["c01q_", "c03q_", "c04q_"]}),
-        dict(features=["c07", "c08"], cfg="std", filters={"quick": ["c07q_ent_vec_opt_2", "c07q_ent_u32", "c07q_ent_string_2", "c07q_iow_vec_u16_3"], "thorough": ["c07q_ent_", "c07q_iow", "c08q_in_tup3", "c08q_in_vec_opt_2"]}),
+        dict(features=["c07", "c08", "c12"], cfg="std", stubbing=True, filters={"quick": ["c07q_ent_vec_opt_2", "c07q_ent_u32", "c07q_ent_string_2", "c07q_iow_vec_u16_3", "c08q_bytes", "c12q_ml_box_u64", "c12q_ml_vec_u32_2"],
+                                                               "thorough": ["c07q_ent_", "c07q_iow", "c08q_in_tup3", "c08q_in_vec_opt_2", "c08q_bytes", "c12q_ml_box", "c12q_ml_vec_u32_2", "c12q_ml_rc_arr", "c12q_tracker"]}),
+        # decode outcomes under limits and through the shared byte buffer are part of "the accept/reject decision": same harnesses in the no-std configurations
+        dict(features=["c08", "c12"], cfg="chain", stubbing=True, filters={"quick": ["c08q_bytes", "c12q_ml_box_u64", "c12q_ml_vec_u32_2", "c12q_ml_arc_u16"], "thorough": ["c08q_bytes", "c12q_ml_box", "c12q_ml_vec_u32_2", "c12q_ml_rc_arr", "c12q_ml_arc_u16", "c12q_tracker"]}),
+        dict(features=["c08", "c12"], cfg="nostd", stubbing=True, filters={"quick": ["c08q_bytes", "c12q_ml_box_u64", "c12q_ml_arc_u16"], "thorough": ["c08q_bytes", "c12q_ml_box", "c12q_ml_rc_arr", "c12q_ml_arc_u16"]}),
         dict(features=["c20", "big"], cfg="nostd", stubbing=True, jobs=2, mem_gb=28, harness_timeout=1500, timeout=7200, filters={"quick": [], "thorough": ["c20h_"]}),
         dict(features=["c20", "big"], cfg="std", stubbing=True, jobs=2, mem_gb=28, harness_timeout=1500, timeout=7200, filters={"quick": [], "thorough": ["c20h_"]}),
     ],
